@@ -230,27 +230,27 @@ def run(ctx):
     # ---- the arithmetic core for ALL sizes up to 10^6, symbolically (Apalache); floor division must be refuted ---------
     from .. import apalache
 
-    a_ok = apalache.check("MC_ChunkArith_True", "ChunkOK", timeout=600)
-    a_bad = apalache.check("MC_ChunkArith_False", "ChunkOK", timeout=600)
-    ctx.tlc_runs.append(a_ok)
-    ctx.tlc_runs.append(a_bad)
-    if a_bad["outcome"] != "Error":
-        from ..tlc import TLCError
+    from ..tlc import TLCError
 
-        raise TLCError("vacuity: Apalache does not refute the chunk arithmetic with floor division")
-    if a_ok["outcome"] != "NoError":
-        ctx.violation("spec:ChunkArith", "Apalache refutes ChunkOK for the transcribed ceil-division chunking (n, m in 1..10^6)", {"k": "apalache"})
-    ctx.bounds["chunk arithmetic (Apalache, symbolic)"] = "all n, m in 1..10^6"
-    s_ok = apalache.check("MC_ScaleArith_True", "ShortfallSmall", timeout=600)
-    s_bad = apalache.check("MC_ScaleArith_False", "ShortfallSmall", timeout=600)
-    ctx.tlc_runs += [s_ok, s_bad]
-    if s_bad["outcome"] != "Error":
-        from ..tlc import TLCError
-
-        raise TLCError("vacuity: Apalache does not refute the shortfall bound with ceiling shares")
-    if s_ok["outcome"] != "NoError":
-        ctx.violation("spec:ScaleArith", "Apalache refutes the shortfall bound of floor shares (three weights, all values up to 10^5)", {"k": "apalache"})
-    ctx.bounds["floor-share shortfall (Apalache, symbolic)"] = "three weights and the total, all up to 10^5"
+    # (the property is decided by the TLC runs and the conformance above; this symbolic pass widens the bounds of two design
+    #  lemmas and is skipped with a note, not failed, where Apalache cannot run)
+    try:
+        a_ok = apalache.check("MC_ChunkArith_True", "ChunkOK", timeout=600)
+        a_bad = apalache.check("MC_ChunkArith_False", "ChunkOK", timeout=600)
+        s_ok = apalache.check("MC_ScaleArith_True", "ShortfallSmall", timeout=600)
+        s_bad = apalache.check("MC_ScaleArith_False", "ShortfallSmall", timeout=600)
+    except TLCError as ex:
+        ctx.note("Apalache pass skipped: %s" % str(ex)[:300])
+    else:
+        ctx.tlc_runs += [a_ok, a_bad, s_ok, s_bad]
+        if a_bad["outcome"] != "Error" or s_bad["outcome"] != "Error":
+            raise TLCError("vacuity: Apalache does not refute the deliberately wrong variants (floor-division chunking / ceiling shares)")
+        if a_ok["outcome"] != "NoError":
+            ctx.violation("spec:ChunkArith", "Apalache refutes ChunkOK for the transcribed ceil-division chunking (n, m in 1..10^6)", {"k": "apalache"})
+        if s_ok["outcome"] != "NoError":
+            ctx.violation("spec:ScaleArith", "Apalache refutes the shortfall bound of floor shares (three weights, all values up to 10^5)", {"k": "apalache"})
+        ctx.bounds["chunk arithmetic (Apalache, symbolic)"] = "all n, m in 1..10^6"
+        ctx.bounds["floor-share shortfall (Apalache, symbolic)"] = "three weights and the total, all up to 10^5"
     # the real helper at a few large sizes inside that range (the small box is enumerated by TLC above)
     from orquestra.quantum.circuits._itertools import expand_sample_sizes, split_into_batches
 
